@@ -401,6 +401,7 @@ class Emit:
     def val(s, v):
         t = v.ty; ctx = s.ctx
         if v.kind == 'local': return s.cname(v.val)
+        if v.kind == 'raw': return v.val     # already a C expression (lane of a vector)
         if v.kind == 'global':
             if v.val in ctx.funcs or v.val in ctx.decls: return s.fname(v.val)
             gt = ctx.globals[v.val][0]
@@ -622,10 +623,17 @@ class Emit:
             return ('stmt', pre + r[1])
         if op == 'fneg':
             while p.peek()[0] == 'word' and p.peek()[1] in ('fast', 'nnan', 'ninf', 'nsz', 'arcp', 'contract', 'afn', 'reassoc'): p.next()
-            a = tv(); return setd(a.ty, "(-%s)" % s.val(a))
+            a = tv()
+            if isinstance(a.ty, VecT): return setd(a.ty, s.vlanes(a.ty, ["(-%s.a[%d])" % (s.val(a), i) for i in range(a.ty.n)]))
+            return setd(a.ty, "(-%s)" % s.val(a))
         if op == 'icmp':
             pred = p.next()[1]; t = p.type(); a = parse_value(p, t); p.expect(','); b = parse_value(p, t)
             A, B = s.val(a), s.val(b)
+            if isinstance(t, VecT):   # lane-wise, result <n x i1>
+                rt = VecT(t.n, IntT(1)); w = t.el.w
+                c = {'eq': '==', 'ne': '!=', 'ult': '<', 'ule': '<=', 'ugt': '>', 'uge': '>=', 'slt': '<', 'sle': '<=', 'sgt': '>', 'sge': '>='}[pred]
+                f = (lambda e: sgn(w, e)) if pred[0] == 's' else (lambda e: e)
+                return setd(rt, s.vlanes(rt, ["(uint8_t)(%s %s %s)" % (f("%s.a[%d]" % (A, i)), c, f("%s.a[%d]" % (B, i))) for i in range(t.n)]))
             if isinstance(t, PtrT):
                 A = "(uintptr_t)" + A; B = "(uintptr_t)" + B; w = 64
             else: w = t.w
@@ -639,11 +647,16 @@ class Emit:
             e = {'oeq': "A == B", 'ogt': "A > B", 'oge': "A >= B", 'olt': "A < B", 'ole': "A <= B", 'one': "(A < B || A > B)",
                  'ord': "(A == A && B == B)", 'uno': "(A != A || B != B)", 'ueq': "!(A < B || A > B)", 'ugt': "!(A <= B)",
                  'uge': "!(A < B)", 'ult': "!(A >= B)", 'ule': "!(A > B)", 'une': "A != B", 'true': "1", 'false': "0"}[pred]
+            if isinstance(t, VecT):   # lane-wise, result <n x i1>
+                rt = VecT(t.n, IntT(1))
+                return setd(rt, s.vlanes(rt, ["(uint8_t)(%s)" % (e.replace('A', "%s.a[%d]" % (A, i)).replace('B', "%s.a[%d]" % (B, i)) if pred not in ('true', 'false') else e) for i in range(t.n)]))
             e = e.replace('A', A).replace('B', B) if pred not in ('true','false') else e
             return setd(IntT(1), "(uint8_t)(%s)" % e)
         if op == 'select':
             while p.peek()[0] == 'word' and p.peek()[1] in ('fast', 'nnan', 'ninf', 'nsz', 'arcp', 'contract', 'afn', 'reassoc'): p.next()
             c = tv(); p.expect(','); a = tv(); p.expect(','); b = tv()
+            if isinstance(c.ty, VecT):   # lane-wise select
+                return setd(a.ty, s.vlanes(a.ty, ["(%s.a[%d] ? %s.a[%d] : %s.a[%d])" % (s.val(c), i, s.val(a), i, s.val(b), i) for i in range(a.ty.n)]))
             return setd(a.ty, "(%s ? %s : %s)" % (s.val(c), s.val(a), s.val(b)))
         if op == 'phi':
             t = p.type(); inc = []
@@ -697,6 +710,11 @@ class Emit:
             if op == 'bitcast' and isinstance(x.ty, PtrT) and isinstance(t2, PtrT) and isinstance(t2.to, IntT) and t2.to.w == 8 \
                and isinstance(x.ty.to, (IntT, FloatT, PtrT)) and not (isinstance(x.ty.to, PtrT) and isinstance(x.ty.to.to, FuncT)):
                 s.bc[dest] = (x.ty.to, s.val(x))
+            if isinstance(x.ty, VecT) and isinstance(t2, VecT) and op != 'bitcast':   # lane-wise conversion
+                X = s.val(x)
+                return setd(t2, s.vlanes(t2, [s.cast(op, V('raw', "%s.a[%d]" % (X, i), x.ty.el), t2.el) for i in range(t2.n)]))
+            if op == 'bitcast' and any(isinstance(t, VecT) and isinstance(t.el, IntT) and t.el.w == 1 for t in (x.ty, t2)):
+                raise NotImplementedError("bitcast of <n x i1> (packed bits): " + ln)
             return setd(t2, s.cast(op, x, t2))
         if op == 'freeze':
             x = tv(); return setd(x.ty, s.val(x))
@@ -764,6 +782,59 @@ class Emit:
             return ('stmt', 'LL_UNREACHABLE();')
         raise NotImplementedError("inst %s: %s" % (op, ln))
 
+    def vlanes(s, t, els):
+        return "((%s){{%s}})" % (ctype(s.ctx, t), ", ".join(els))
+
+    def simd_intrinsic(s, n, rt, args, A):
+        """lane-wise models of vector intrinsics with the exact ISA / LangRef semantics; returns a C expression or None"""
+        def lane(j, k): return "%s.a[%d]" % (A[j], k)
+        m = re.match(r'@llvm\.(ceil|floor|fabs|sqrt|trunc|rint|nearbyint|round|maxnum|minnum|copysign|fma|fmuladd)\.v(\d+)f(32|64)$', n)
+        if m:
+            fn = {'maxnum': 'fmax', 'minnum': 'fmin', 'fmuladd': 'LL_FMULADD'}.get(m.group(1), m.group(1))
+            if m.group(2 + 1) == '32' and fn != 'LL_FMULADD': fn += 'f'
+            if m.group(1) == 'sqrt': fn = 'LL_SQRTF' if m.group(3) == '32' else 'LL_SQRT'
+            return s.vlanes(rt, ["%s(%s)" % (fn, ", ".join(lane(j, k) for j in range(len(A)))) for k in range(int(m.group(2)))])
+        # roundps/roundpd imm8: bit 2 = use MXCSR.RC (default: nearest-even), else bits 1:0 = 0 nearest-even, 1 down, 2 up, 3 truncate
+        m = re.match(r'@llvm\.x86\.(?:sse41|avx)\.round\.(ps|pd|ss|sd)(?:\.256)?$', n)
+        if m:
+            imm = args[-1].val
+            if args[-1].kind != 'int': raise NotImplementedError("round with non-constant mode")
+            fn = 'nearbyint' if imm & 4 else ['nearbyint', 'floor', 'ceil', 'trunc'][imm & 3]
+            if m.group(1)[1] == 's': fn += 'f'
+            if m.group(1)[0] == 's':   # scalar form: lane 0 from the 2nd operand rounded, upper lanes from the 1st
+                return s.vlanes(rt, ["%s(%s)" % (fn, lane(1, 0))] + [lane(0, k) for k in range(1, rt.n)])
+            return s.vlanes(rt, ["%s(%s)" % (fn, lane(0, k)) for k in range(rt.n)])
+        m = re.match(r'@llvm\.x86\.(?:sse2?|avx)\.sqrt\.(ps|pd)(?:\.256)?$', n)
+        if m:
+            return s.vlanes(rt, ["%s(%s)" % ('LL_SQRTF' if m.group(1) == 'ps' else 'LL_SQRT', lane(0, k)) for k in range(rt.n)])
+        # cmpps/cmppd imm8 predicate (bit 4 only changes signalling): result lane is all-ones or all-zeros
+        m = re.match(r'@llvm\.x86\.(?:sse2?|avx)\.cmp\.(ps|pd)(?:\.256)?$', n)
+        if m:
+            if args[2].kind != 'int': raise NotImplementedError("cmp with non-constant predicate")
+            tab = ["A == B", "A < B", "A <= B", "(A != A || B != B)", "A != B", "!(A < B)", "!(A <= B)", "(A == A && B == B)",
+                   "!(A < B || A > B)", "!(A >= B)", "!(A > B)", "0", "(A < B || A > B)", "A >= B", "A > B", "1"]
+            e = tab[args[2].val & 15]; mk = 'LL_MASK_F32' if m.group(1) == 'ps' else 'LL_MASK_F64'
+            return s.vlanes(rt, ["%s(%s)" % (mk, e.replace('A', lane(0, k)).replace('B', lane(1, k))) for k in range(rt.n)])
+        # blendv: lane from the 2nd operand where the sign bit of the mask lane is set, else from the 1st
+        m = re.match(r'@llvm\.x86\.(?:sse41\.blendv(ps|pd)|avx\.blendv\.(ps|pd)\.256)$', n)
+        if m:
+            sb = 'LL_SIGN_F32' if (m.group(1) or m.group(2)) == 'ps' else 'LL_SIGN_F64'
+            return s.vlanes(rt, ["(%s(%s) ? %s : %s)" % (sb, lane(2, k), lane(1, k), lane(0, k)) for k in range(rt.n)])
+        # movmskps/pd: bit k of the result = sign bit of lane k
+        m = re.match(r'@llvm\.x86\.(?:sse|sse2|avx)\.movmsk\.(ps|pd)(?:\.256)?$', n)
+        if m:
+            sb = 'LL_SIGN_F32' if m.group(1) == 'ps' else 'LL_SIGN_F64'; t = args[0].ty
+            return "((uint32_t)(%s))" % " | ".join("((uint32_t)%s(%s) << %d)" % (sb, lane(0, k), k) for k in range(t.n))
+        # haddps/pd (per 128-bit half): [a0+a1, a2+a3, b0+b1, b2+b3]
+        m = re.match(r'@llvm\.x86\.(?:sse3|avx)\.(hadd|hsub)\.(ps|pd)(?:\.256)?$', n)
+        if m:
+            c = '+' if m.group(1) == 'hadd' else '-'; t = args[0].ty; h = 4 if m.group(2) == 'ps' else 2; els = []
+            for base in range(0, t.n, h):
+                for j in (0, 1):
+                    for k in range(0, h, 2): els.append("(%s %s %s)" % (lane(j, base + k), c, lane(j, base + k + 1)))
+            return s.vlanes(rt, els)
+        return None
+
     def vecop(s, op, t, a, b):
         ctx = s.ctx
         A, B = s.val(a), s.val(b)
@@ -803,6 +874,7 @@ class Emit:
             if m:
                 fn = {'maxnum': 'fmax', 'minnum': 'fmin', 'fmuladd': 'LL_FMULADD'}.get(m.group(1), m.group(1))
                 if m.group(2) == '32' and fn != 'LL_FMULADD': fn += 'f'
+                if m.group(1) == 'sqrt': fn = 'LL_SQRTF' if m.group(2) == '32' else 'LL_SQRT'
                 s.used_ext.add(fn)
                 return ret("%s(%s)" % (fn, ", ".join(A)))
             m = re.match(r'@llvm\.(uadd|usub|umul|sadd|ssub|smul)\.with\.overflow\.i(\d+)', n)
@@ -814,6 +886,8 @@ class Emit:
                 t = args[0].ty
                 els = ["(%s.a[%d] %s %s.a[%d] ? %s.a[%d] : %s.a[%d])" % (A[0], i, c, A[1], i, A[0], i, A[1], i) for i in range(t.n)]
                 return ret("((%s){{%s}})" % (ctype(ctx, t), ", ".join(els)))
+            e = s.simd_intrinsic(n, rt, args, A)
+            if e is not None: return ret(e)
             raise NotImplementedError("intrinsic " + n)
         ext = {'@_Znwm': 'LL_MALLOC', '@_Znam': 'LL_MALLOC', '@malloc': 'LL_MALLOC', '@_ZdlPv': 'LL_FREE', '@_ZdaPv': 'LL_FREE', '@free': 'LL_FREE',
                '@_ZdlPvm': 'LL_FREE', '@calloc': 'LL_CALLOC', '@__assert_fail': 'LL_ASSERT_FAIL', '@abort': 'LL_ABORT', '@_ZSt9terminatev': 'LL_ABORT',
@@ -824,6 +898,7 @@ class Emit:
                 return ('stmt', "%s();" % ext[n])
             if ext[n] == 'LL_FREE': return ('stmt', "LL_FREE(%s);" % A[0])
             return ret("((%s)%s(%s))" % (ctype(ctx, rt), ext[n], ", ".join(A)))
+        if n in ('@sqrtf', '@sqrt'): return ret("%s(%s)" % ('LL_SQRTF' if n == '@sqrtf' else 'LL_SQRT', A[0]))
         if n.startswith('@_ZSt') and 'throw' in n:
             return ('stmt', "LL_THROW();")
         if n[0] == '%':
@@ -893,6 +968,21 @@ static inline void ll_memset_loop(uint8_t* d, uint8_t v, size_t n) { for (size_t
 #define CHK_NSW_SUB(w, a, b) do { int64_t r_; CHK_NSW(!__builtin_sub_overflow((int64_t)(a), (int64_t)(b), &r_) && ((w) == 64 || (r_ >= -((int64_t)1 << ((w) - 1)) && r_ < ((int64_t)1 << ((w) - 1)))), "sub"); } while (0)
 #define CHK_NSW_MUL(w, a, b) do { int64_t r_; CHK_NSW(!__builtin_mul_overflow((int64_t)(a), (int64_t)(b), &r_) && ((w) == 64 || (r_ >= -((int64_t)1 << ((w) - 1)) && r_ < ((int64_t)1 << ((w) - 1)))), "mul"); } while (0)
 #define BITCAST(T2, T1, e) (((union { T1 a; T2 b; }){ .a = (e) }).b)
+/* lane helpers of the x86 vector intrinsic models */
+#define LL_MASK_F32(c) BITCAST(float, uint32_t, ((c) ? 0xFFFFFFFFu : 0u))
+#define LL_MASK_F64(c) BITCAST(double, uint64_t, ((c) ? 0xFFFFFFFFFFFFFFFFull : 0ull))
+#define LL_SIGN_F32(x) ((uint32_t)(BITCAST(uint32_t, float, (x)) >> 31))
+#define LL_SIGN_F64(x) ((uint32_t)(BITCAST(uint64_t, double, (x)) >> 63))
+/* sqrt: correctly rounded in libm and in sqrtps/sqrtss alike. Default: libm / CBMC's model. With -DLL_UNINTERPRETED_SQRT (CBMC only)
+   every sqrt call site, scalar or vector lane, is the same uninterpreted function: sound for equalities between two evaluations */
+#if defined(LL_UNINTERPRETED_SQRT) && !defined(LL_NATIVE)
+float __CPROVER_uninterpreted_sqrtf(float); double __CPROVER_uninterpreted_sqrt(double);
+#define LL_SQRTF(x) __CPROVER_uninterpreted_sqrtf(x)
+#define LL_SQRT(x) __CPROVER_uninterpreted_sqrt(x)
+#else
+#define LL_SQRTF(x) sqrtf(x)
+#define LL_SQRT(x) sqrt(x)
+#endif
 '''
 
 def translate(text):
